@@ -228,6 +228,8 @@ def holder_cases(draw):
             s = draw(st.sampled_from(sorted(slots)))
             hk = draw(st.integers(0, HK - 1))
             n = draw(st.sampled_from([1, 2, 255, 256, 1000, 33000, 33000]))
+            if slotkind[s] == 6 and n > 1000:
+                n = 1000          # strings are not shared past 65535 references (see ASSUMPTIONS)
             cur.append("hold,%d,%d,%d,%d" % (h, s, hk, n))
             holders[h] = slots[s]
             creation.append(h)
